@@ -290,3 +290,8 @@ PROP["trusted_base"] = [a.replace(
     "whole run (the server sends the stored notification: C12 RX.makeResponse)") for a in PROP["trusted_base"]]
 PROP["rule"] += ("; component e2ew: the same scenarios with every notification in the wire-shaped token (key maps written in a "
                  "random order, Elem / Element / both, origin and target fields), corpus/C01/wire_nil_path_update.ops")
+
+PROP["assumptions"] += [
+    "`su rwalk` (corpus) and the second ONCE query of the final e2e clients on the same client object are Go-side "
+    "monitors: they only ever add a suffix / verdict when the real code misbehaves and have no model run behind them",
+]
